@@ -437,7 +437,8 @@ def sched_scenarios(ctx, rng, sched_mod, instr_modules):
     for it in range(nsched):
         if it >= 10 and not ctx.budget_ok():
             break
-        scen = ["exec_once", "exec_once_unless_exception", "sync_first_run", "once_listener", "first_connect"][it % 5]
+        scen = ["exec_once", "exec_once_unless_exception", "sync_first_run", "once_listener", "first_connect",
+                "class_level_for_modify_exec_once"][it % 6]
         nthreads = rng.randint(2, 4)
         s = sched_mod.Scheduler(rng, switch_prob=rng.choice([0.1, 0.25, 0.5]))
         TargetEvents, classes = build_world()
@@ -469,6 +470,14 @@ def sched_scenarios(ctx, rng, sched_mod, instr_modules):
 
             def call():
                 coll(1, 2)
+        elif scen == "class_level_for_modify_exec_once":
+            # the pattern pool.__connect uses for first_connect: the collection is still the
+            # shared _EmptyListener (only class-level listeners); every caller goes through
+            # for_modify() and then exec_once()
+            event.listen(classes["A"], "ev_one", listener)
+
+            def call():
+                obj.dispatch.ev_one.for_modify(obj.dispatch).exec_once(1, 2)
         elif scen == "first_connect":
             path = ctx.tmppath(".db")
             eng = sa.create_engine(f"sqlite:///{path}", poolclass=sa.pool.QueuePool,
@@ -522,7 +531,7 @@ def sched_scenarios(ctx, rng, sched_mod, instr_modules):
             if len(init_calls) != 1:
                 ctx.violation("first-connect-initialize-not-once", f"dialect.initialize ran {len(init_calls)} times under {nthreads} threads", desc)
             eng.dispose()
-        elif scen in ("exec_once", "once_listener"):
+        elif scen in ("exec_once", "once_listener", "class_level_for_modify_exec_once"):
             ctx.count("once_bodies_run", state["bodies"])
             if state["bodies"] != 1:
                 ctx.violation(f"once-listener-ran-{'twice' if state['bodies'] > 1 else 'never'}:{scen}",
